@@ -125,7 +125,7 @@ def attr_group(*gks):
 
 
 PROPS["C20"] = dict(
-    level_text="The rounding kernel's bracket/mirror/half-pair laws are proved for all naturals with TLAPS (4 obligations, re-checked every run) and model-checked on RoundOnce; recorded groups (8 modes, swapped/negated/scaled operands, ascending Round inputs) are validated by TraceRel, which imports no arithmetic oracle; ShouldAddOne is bound to the kernel exhaustively.",
+    level_text="The rounding kernel's bracket/mirror/half-pair/monotonicity laws are proved for all naturals with TLAPS (5 obligations, re-checked every run) and model-checked on RoundOnce; recorded groups (8 modes, swapped/negated/scaled operands, ascending Round inputs) are validated by TraceRel, which imports no arithmetic oracle; ShouldAddOne is bound to the kernel exhaustively.",
     mc=[("MC_Round", None)],
     drivers=[("modes", "TraceRel"), ("rel", "TraceRel"), ("shouldaddone", "TraceRel")],
     tlaps="proofs/Kern.tla",
